@@ -1,7 +1,760 @@
 package main
 
-import "time"
+import (
+	"bytes"
+	"encoding/json"
+	"fmt"
+	"strconv"
+	"strings"
+	"time"
 
-func serverWorker(tier string, deadline time.Time) *workerOut { return newOut("server") }
-func runServerScenario(name string) ([]finding, string)        { return nil, "" }
-func runServerCase(c caseID) caseResult                         { return caseResult{} }
+	sio "github.com/karagenc/socket.io-go"
+	"github.com/karagenc/socket.io-go/adapter"
+	eio "github.com/karagenc/socket.io-go/engine.io"
+	"github.com/karagenc/socket.io-go/internal/vrig"
+	"github.com/karagenc/socket.io-go/internal/vsched"
+)
+
+// ---------------------------------------------------------------- the harness's own frame decoder
+
+// rxEvent is one EVENT / BINARY_EVENT as the protocol-level client decodes it.
+type rxEvent struct {
+	name   string
+	args   []json.RawMessage // arguments after the event name, placeholders still in place
+	bins   [][]byte          // attachments
+	ackID  string
+	offset string // trailing argument if it is a JSON string
+	broken string // why the frames do not form a packet ("" = fine)
+	raw    string
+}
+
+type rxStream struct {
+	events   []rxEvent
+	connects []string // bodies of CONNECT replies
+	errors   []string // CONNECT_ERROR bodies
+	other    []string
+}
+
+// decodeFrames parses the frames the server handed to one connection (namespace "/" only).
+func decodeFrames(frames []vrig.Frame) (s rxStream) {
+	for i := 0; i < len(frames); i++ {
+		f := frames[i]
+		if f.Binary {
+			s.events = append(s.events, rxEvent{broken: "binary frame that no header announced", raw: fmt.Sprintf("<bin %x>", f.Data)})
+			continue
+		}
+		d := f.Data
+		if d == "" {
+			s.other = append(s.other, d)
+			continue
+		}
+		switch d[0] {
+		case '0':
+			s.connects = append(s.connects, d[1:])
+		case '4':
+			s.errors = append(s.errors, d[1:])
+		case '2', '5':
+			ev := rxEvent{raw: d}
+			rest := d[1:]
+			natt := 0
+			if d[0] == '5' {
+				dash := strings.IndexByte(rest, '-')
+				if dash < 0 {
+					ev.broken = "binary event header without attachment count"
+					s.events = append(s.events, ev)
+					continue
+				}
+				natt, _ = strconv.Atoi(rest[:dash])
+				rest = rest[dash+1:]
+			}
+			j := 0
+			for j < len(rest) && rest[j] >= '0' && rest[j] <= '9' {
+				j++
+			}
+			ev.ackID, rest = rest[:j], rest[j:]
+			var arr []json.RawMessage
+			if err := json.Unmarshal([]byte(rest), &arr); err != nil || len(arr) == 0 {
+				ev.broken = "payload is not a JSON array with an event name"
+				s.events = append(s.events, ev)
+				continue
+			}
+			json.Unmarshal(arr[0], &ev.name)
+			ev.args = arr[1:]
+			if len(ev.args) > 0 {
+				var off string
+				if json.Unmarshal(ev.args[len(ev.args)-1], &off) == nil {
+					ev.offset = off
+				}
+			}
+			for a := 0; a < natt; a++ {
+				if i+1 < len(frames) && frames[i+1].Binary {
+					i++
+					ev.bins = append(ev.bins, []byte(frames[i].Data))
+					ev.raw += fmt.Sprintf(" + <bin %x>", frames[i].Data)
+				} else {
+					ev.broken = fmt.Sprintf("header announces %d attachment(s), %d binary frame(s) follow", natt, len(ev.bins))
+					break
+				}
+			}
+			s.events = append(s.events, ev)
+		default:
+			s.other = append(s.other, d)
+		}
+	}
+	return
+}
+
+// matches: is ev the packet p of the model (event name, argument, attachment, trailing offset)?
+func (ev *rxEvent) matches(p *mpkt) string {
+	if ev.broken != "" {
+		return ev.broken
+	}
+	if ev.name != evName(p.idx) {
+		return fmt.Sprintf("event name %q, emitted %q", ev.name, evName(p.idx))
+	}
+	nargs := 2
+	if !p.logged {
+		nargs = 1
+	}
+	if len(ev.args) != nargs {
+		return fmt.Sprintf("%d arguments after the event name, expected %d (payload%s)", len(ev.args), nargs, map[bool]string{true: " + offset", false: ""}[p.logged])
+	}
+	if p.s.bin() {
+		var ph struct {
+			P   bool `json:"_placeholder"`
+			Num *int `json:"num"`
+		}
+		if json.Unmarshal(ev.args[0], &ph) != nil || !ph.P || ph.Num == nil || *ph.Num != 0 {
+			return "binary argument is not placeholder 0: " + string(ev.args[0])
+		}
+		if len(ev.bins) != 1 || !bytes.Equal(ev.bins[0], binArg(p.idx)) {
+			return fmt.Sprintf("attachments %x, emitted %x", ev.bins, binArg(p.idx))
+		}
+	} else {
+		if string(ev.args[0]) != strconv.Quote(textArg(p.idx)) || len(ev.bins) != 0 {
+			return fmt.Sprintf("argument %s with %d attachments, emitted %q", ev.args[0], len(ev.bins), textArg(p.idx))
+		}
+	}
+	if p.logged && ev.offset != p.id {
+		return fmt.Sprintf("trailing offset %q is not the id the packet was logged with", ev.offset)
+	}
+	return ""
+}
+
+// ---------------------------------------------------------------- one case through sio.Server
+
+type srvConn struct {
+	sock      sio.ServerSocket
+	id        string
+	recovered bool
+	rooms     []string
+	ready     bool
+}
+
+type sidPid struct {
+	SID string `json:"sid"`
+	PID string `json:"pid"`
+}
+
+// variants of a server-level case
+const (
+	vNormal           = ""
+	vUnknownPID       = "unknown-pid"
+	vUnknownOffset    = "unknown-offset"
+	vClientDisconnect = "client-namespace-disconnect" // not a recoverable reason: nothing is persisted
+	vTwice            = "recover-twice"
+	vBoth             = "two-sessions" // T is cut as well and recovers from the same log after S
+)
+
+func runServerCase(c caseID) caseResult { return runServerCaseV(c, vNormal) }
+
+func runServerCaseV(c caseID, variant string) (res caseResult) {
+	n := len(c.H)
+	tm := schedule(n, c.K, c.Delta, c.spacing())
+	if tm.onCleanerGrid() {
+		res.HarnessErr = fmt.Sprintf("%v: an event falls on a clean-up pass", c)
+		return
+	}
+	what := c.String()
+	if variant != "" {
+		what += " [" + variant + "]"
+	}
+	add := func(key, format string, a ...any) {
+		res.Findings = append(res.Findings, finding{key, what + ": " + fmt.Sprintf(format, a...)})
+	}
+	e := vsched.Run(vsched.Options{Horizon: tm.tRe + 30*time.Second}, func(e *vsched.Exec) {
+		scfg := &sio.ServerConfig{ServerConnectionStateRecovery: sio.ServerConnectionStateRecovery{Enabled: true, MaxDisconnectionDuration: window}}
+		srv := sio.NewServer(scfg)
+		nsp := srv.Of("/")
+		a := nsp.Adapter()
+		if w, p, ok := adapter.VerifSessionWindow(a); !ok || w != window || p != cleanerPeriod {
+			res.HarnessErr = fmt.Sprintf("server adapter window/period are %v/%v (session-aware: %v), the harness assumes %v/%v", w, p, ok, window, cleanerPeriod)
+			return
+		}
+		var v vsched.Var
+		var conns []*srvConn
+		nsp.OnConnection(func(s sio.ServerSocket) {
+			rec := &srvConn{sock: s, id: string(s.ID()), recovered: s.Recovered()}
+			idx := 0
+			v.Do(func() { idx = len(conns); conns = append(conns, rec) })
+			if !s.Recovered() {
+				switch idx {
+				case 0:
+					s.Join("r1")
+				case 1:
+					s.Join("r2")
+				}
+			}
+			var rooms []string
+			for _, r := range s.Rooms().ToSlice() {
+				rooms = append(rooms, string(r))
+			}
+			v.Do(func() { rec.rooms = sortedCopy(rooms); rec.ready = true })
+		})
+		connect := func(name, first string) (*vrig.FakeEIO, *srvConn, sidPid, bool) {
+			f := vrig.NewFakeEIO(srv, name)
+			nBefore := 0
+			v.Do(func() { nBefore = len(conns) })
+			f.In(first)
+			vsched.Sleep(10 * time.Millisecond)
+			st := decodeFrames(f.Frames)
+			var sp sidPid
+			if len(st.connects) != 1 || json.Unmarshal([]byte(st.connects[0]), &sp) != nil || sp.SID == "" {
+				add("server: CONNECT not answered with exactly one CONNECT reply carrying a sid", "connection %s sent %s, frames: %s", name, first, f)
+				return f, nil, sp, false
+			}
+			var rec *srvConn
+			v.Do(func() {
+				if len(conns) == nBefore+1 && conns[nBefore].ready {
+					rec = conns[nBefore]
+				}
+			})
+			if rec == nil {
+				add("server: connection handler did not run for an admitted socket", "connection %s", name)
+				return f, nil, sp, false
+			}
+			return f, rec, sp, true
+		}
+		fS, cS, spS, ok := connect("S1", "0")
+		if !ok {
+			return
+		}
+		fT, cT, spT, ok := connect("T1", "0")
+		if !ok {
+			return
+		}
+		if spS.PID == "" || spT.PID == "" || spS.PID == spT.PID || spS.SID == spT.SID {
+			add("server: recovery-enabled server does not hand out distinct sid/pid pairs", "S %+v T %+v", spS, spT)
+			return
+		}
+		rooms := [2][]string{{spS.SID, "r1"}, {spT.SID, "r2"}}
+		sps := [2]sidPid{spS, spT}
+		model := make([]mpkt, 0, n+4)
+		sConnected := true
+		emitKind := func(s sym, at time.Duration) *mpkt {
+			i := len(model)
+			model = append(model, mpkt{idx: i, s: s, at: at})
+			p := &model[i]
+			tg := kindTarget(s.kind(), spS.SID, spT.SID)
+			p.logged = s.kind() != kAck
+			p.to = [2]bool{addressed(rooms[0], tg), addressed(rooms[1], tg)}
+			var arg any = textArg(i)
+			if s.bin() {
+				arg = sio.Binary(binArg(i))
+			}
+			before, _, _ := adapter.VerifSessionLog(a)
+			switch s.kind() {
+			case kAll:
+				nsp.Emit(evName(i), arg)
+			case kR1:
+				nsp.To("r1").Emit(evName(i), arg)
+			case kR2:
+				nsp.To("r2").Emit(evName(i), arg)
+			case kR1xR2:
+				nsp.To("r1").Except("r2").Emit(evName(i), arg)
+			case kAllxS:
+				if sConnected {
+					cS.sock.Broadcast().Emit(evName(i), arg)
+				} else {
+					nsp.Except(sio.Room(spS.SID)).Emit(evName(i), arg)
+				}
+			case kS:
+				if sConnected {
+					cS.sock.Emit(evName(i), arg)
+				} else {
+					nsp.To(sio.Room(spS.SID)).Emit(evName(i), arg)
+				}
+			case kT:
+				cT.sock.Emit(evName(i), arg)
+			case kAck:
+				if sConnected {
+					cS.sock.Emit(evName(i), arg, func() {})
+				} else {
+					// the socket is gone: an emit with ack to the other client (never logged, not for S)
+					cT.sock.Emit(evName(i), arg, func() {})
+					p.to = [2]bool{false, true}
+				}
+			}
+			after, _, _ := adapter.VerifSessionLog(a)
+			grew := len(after) == len(before)+1
+			if grew {
+				p.id = after[len(after)-1].ID
+			}
+			if grew != p.logged {
+				add("server: packet log does not hold exactly the events without ack id", "packet %d (%v): logged=%v, the model says %v", i+1, s, grew, p.logged)
+			}
+			return p
+		}
+		// liveCheck compares the events a connection received with the model packets [from, to) addressed to sess.
+		liveCheck := func(f *vrig.FakeEIO, skipEvents int, from, to, sess int, who string) (lastOffset string, ok bool) {
+			st := decodeFrames(f.Frames)
+			evs := st.events
+			if skipEvents <= len(evs) {
+				evs = evs[skipEvents:]
+			}
+			var want []*mpkt
+			for i := from; i < to; i++ {
+				if model[i].to[sess] {
+					want = append(want, &model[i])
+				}
+			}
+			ok = len(evs) == len(want)
+			why := ""
+			for j := 0; ok && j < len(want); j++ {
+				if why = evs[j].matches(want[j]); why != "" {
+					ok = false
+				}
+			}
+			if !ok {
+				var wl []int
+				for _, p := range want {
+					wl = append(wl, p.idx+1)
+				}
+				add("server: live delivery differs from the reference model (C02/C04 territory; the C08 model is not applicable)", "%s received %s; the model expects packets %v (%s)", who, f, wl, why)
+			}
+			for _, ev := range evs {
+				if ev.ackID == "" && ev.offset != "" {
+					lastOffset = ev.offset
+				}
+			}
+			return
+		}
+
+		for i := 0; i < c.K; i++ {
+			sleepUntil(e, tm.emitAt[i])
+			emitKind(c.H[i], e.Clock())
+		}
+		sleepUntil(e, tm.tDisc)
+		clientOffset, okLive := liveCheck(fS, 0, 0, c.K, 0, "client S")
+		if !okLive {
+			return
+		}
+		offsetIdx := -1
+		for i := 0; i < c.K; i++ {
+			if model[i].logged && model[i].to[0] {
+				offsetIdx = i
+			}
+		}
+		if wantOff := func() string {
+			if offsetIdx >= 0 {
+				return model[offsetIdx].id
+			}
+			return ""
+		}(); wantOff != clientOffset {
+			res.HarnessErr = fmt.Sprintf("%s: client offset %q, model offset %q", what, clientOffset, wantOff)
+			return
+		}
+		eventsSeenT := 0
+		offsetT, offsetIdxT := "", -1
+		if variant == vBoth {
+			var okT bool
+			if offsetT, okT = liveCheck(fT, 0, 0, c.K, 1, "client T"); !okT {
+				return
+			}
+			for i := 0; i < c.K; i++ {
+				if model[i].logged && model[i].to[1] {
+					offsetIdxT = i
+				}
+			}
+			fT.TransportClose(eio.ReasonTransportClose)
+		}
+		// the cut
+		if variant == vClientDisconnect {
+			fS.In("1")
+		} else {
+			fS.TransportClose(eio.ReasonTransportClose)
+		}
+		sConnected = false
+		for i := c.K; i < n; i++ {
+			sleepUntil(e, tm.emitAt[i])
+			emitKind(c.H[i], e.Clock())
+		}
+		sleepUntil(e, tm.tRe)
+		if e.Clock() != tm.tRe {
+			res.HarnessErr = fmt.Sprintf("%s: clock is %v at the reconnection, planned %v", what, e.Clock(), tm.tRe)
+			return
+		}
+		if variant != vBoth {
+			if _, ok := liveCheck(fT, eventsSeenT, 0, n, 1, "client T (stays connected)"); !ok {
+				return
+			}
+		}
+		eventsSeenT = len(decodeFrames(fT.Frames).events)
+		framesOld := len(fS.Frames)
+
+		// the reconnection
+		exp, why := expect(model, offsetIdx, tm)
+		pid, off := spS.PID, clientOffset
+		switch variant {
+		case vUnknownPID:
+			pid, exp, why = "no-such-pid", mustNot, "the pid is unknown"
+		case vUnknownOffset:
+			off, exp, why = "never-logged-offset", mustNot, "the offset was never logged"
+		case vClientDisconnect:
+			exp, why = mustNot, "the client left with a DISCONNECT packet (not a recoverable reason), nothing was persisted"
+		}
+		res.Class[0] = exp
+		auth := map[string]string{"pid": pid}
+		if off != "" {
+			auth["offset"] = off
+		}
+		ab, _ := json.Marshal(auth)
+		reconnect := func(name string, ab []byte, sess, offsetIdx int, exp expectation, why string, tm timing) (f2 *vrig.FakeEIO, c2 *srvConn, recovered bool, ok bool) {
+			f2, c2, sp2, ok := connect(name, "0"+string(ab))
+			if !ok {
+				st := decodeFrames(f2.Frames)
+				if len(st.errors) > 0 && exp != mustNot {
+					// a CONNECT_ERROR instead of a session: the replay could not be produced
+					add("server: reconnection within the window answered with CONNECT_ERROR", "frames: %s", f2)
+				}
+				return f2, nil, false, false
+			}
+			recovered = sp2.SID == sps[sess].SID
+			if sess == 0 {
+				res.OK[0] = recovered
+			}
+			st := decodeFrames(f2.Frames)
+			switch {
+			case exp == must && !recovered:
+				after := " (no clean-up pass since the offset packet was emitted)"
+				if passesBetween(model[offsetIdx].at, tm.tRe) > 0 {
+					after = " after a clean-up pass of the packet log"
+				}
+				add("server: recovery refused although session and offset are within the window"+after,
+					"connection "+name+": client reconnects %v after the cut with pid and the offset of packet %d (emitted %v before; window %v; %d clean-up passes since): fresh sid", tm.tRe-tm.tDisc, offsetIdx+1, tm.tRe-model[offsetIdx].at, window, passesBetween(model[offsetIdx].at, tm.tRe))
+			case exp == mustNot && recovered:
+				add("server: session recovered although it must not be ("+mustNotClass(why)+")", "%s: %s, yet the CONNECT reply carries the old sid", name, why)
+			}
+			if !recovered {
+				if sp2.PID == sps[sess].PID || sp2.PID == "" {
+					add("server: fresh session carries the old pid or none", "reply %+v, old %+v", sp2, sps[sess])
+				}
+				if c2.recovered {
+					add("server: fresh session is marked recovered", "ServerSocket.Recovered() is true for sid %s", sp2.SID)
+				}
+				if len(st.events) != 0 {
+					add("server: fresh session received replayed packets", "frames: %s", f2)
+				}
+				return f2, c2, false, true
+			}
+			if sp2.PID != sps[sess].PID {
+				add("server: recovered session got another pid", "reply %+v, old %+v", sp2, sps[sess])
+			}
+			if !c2.recovered || c2.id != sps[sess].SID {
+				add("server: recovered socket is not marked recovered or has another id", "Recovered()=%v ID()=%s", c2.recovered, c2.id)
+			}
+			if strings.Join(c2.rooms, ",") != strings.Join(sortedCopy(rooms[sess]), ",") {
+				add("server: recovered socket is not in the rooms it had", "rooms %v, before the cut %v", c2.rooms, sortedCopy(rooms[sess]))
+			}
+			if offsetIdx < 0 {
+				return f2, c2, true, true
+			}
+			// the replay: decoded by the harness, compared with the model
+			byID := map[string]*mpkt{}
+			for i := range model {
+				if model[i].logged {
+					byID[model[i].id] = &model[i]
+				}
+			}
+			var ids []string
+			broken := false
+			for i := range st.events {
+				ev := &st.events[i]
+				p := byID[ev.offset]
+				kind := "text"
+				if ev.raw != "" && ev.raw[0] == '5' || (p != nil && p.s.bin()) {
+					kind = "binary"
+				}
+				if ev.broken != "" {
+					add("server: replayed "+kind+" event does not re-encode", "%s: %s; all frames: %s", ev.raw, ev.broken, f2)
+					broken = true
+					continue
+				}
+				ids = append(ids, ev.offset)
+				if p != nil {
+					if why := ev.matches(p); why != "" {
+						add("server: replayed "+kind+" event differs from the one that was emitted", "packet %d replayed as %s: %s", p.idx+1, ev.raw, why)
+					}
+				}
+			}
+			res.Replayed += len(ids)
+			if !broken {
+				for _, fd := range judgeMissed("server", ids, model, offsetIdx, sess, tm) {
+					add(fd.Key, "%s", fd.Msg)
+				}
+			}
+			return f2, c2, true, !broken
+		}
+		f2, c2, recovered, ok := reconnect("S2", ab, 0, offsetIdx, exp, why, tm)
+		if variant == vBoth {
+			abT, _ := json.Marshal(map[string]string{"pid": spT.PID, "offset": offsetT})
+			expT, whyT := expect(model, offsetIdxT, tm)
+			if offsetIdxT < 0 {
+				abT, _ = json.Marshal(map[string]string{"pid": spT.PID})
+			}
+			reconnect("T2", abT, 1, offsetIdxT, expT, whyT, tm)
+			return
+		}
+		for _, p := range model[minInt(offsetIdx+1, len(model)):] {
+			if offsetIdx >= 0 && p.logged && p.to[0] {
+				res.Nontrivial = true
+			}
+		}
+		if len(fS.Frames) != framesOld {
+			add("server: the cut connection received frames after the cut", "%s", fS)
+		}
+		if !ok || c2 == nil {
+			return
+		}
+		// live events continue on the new connection
+		seen := len(decodeFrames(f2.Frames).events)
+		if recovered {
+			cS.sock = c2.sock
+			sConnected = true
+		} else {
+			rooms[0] = []string{c2.id} // a fresh socket: only its own room
+		}
+		from := len(model)
+		vsched.Sleep(time.Second)
+		emitKind(sym(kAll*2), e.Clock())
+		emitKind(sym(kR1*2+1), e.Clock())
+		if recovered {
+			emitKind(sym(kS*2+1), e.Clock())
+		}
+		vsched.Sleep(100 * time.Millisecond)
+		st := decodeFrames(f2.Frames)
+		var wantLive []*mpkt
+		for i := from; i < len(model); i++ {
+			if model[i].to[0] {
+				wantLive = append(wantLive, &model[i])
+			}
+		}
+		gotLive := st.events
+		if seen <= len(gotLive) {
+			gotLive = gotLive[seen:]
+		}
+		okLive = len(gotLive) == len(wantLive)
+		for j := 0; okLive && j < len(wantLive); j++ {
+			if gotLive[j].matches(wantLive[j]) != "" {
+				okLive = false
+			}
+		}
+		if !okLive {
+			add("server: live events after the reconnection are not delivered as emitted", "recovered=%v; new connection received %s; expected %d live events after %d replayed", recovered, f2, len(wantLive), seen)
+			return
+		}
+		if variant != vTwice || !recovered {
+			return
+		}
+		// second round: cut again right away, two more packets, reconnect with the newest offset
+		lastOff := ""
+		for _, ev := range st.events {
+			if ev.offset != "" && ev.ackID == "" {
+				lastOff = ev.offset
+			}
+		}
+		off2 := -1
+		for i := range model {
+			if model[i].logged && model[i].id == lastOff {
+				off2 = i
+			}
+		}
+		if off2 < 0 {
+			res.HarnessErr = what + ": second round: last offset not in the model"
+			return
+		}
+		f2.TransportClose(eio.ReasonTransportClose)
+		sConnected = false
+		tm2 := timing{tDisc: e.Clock()}
+		vsched.Sleep(time.Second)
+		emitKind(sym(kS*2), e.Clock())
+		emitKind(sym(kR2*2), e.Clock())
+		emitKind(sym(kR1*2+1), e.Clock())
+		vsched.Sleep(time.Second)
+		tm2.tRe = e.Clock()
+		exp2, why2 := expect(model, off2, tm2)
+		ab2, _ := json.Marshal(map[string]string{"pid": spS.PID, "offset": lastOff})
+		reconnect("S3", ab2, 0, off2, exp2, why2+" (second recovery of the same session)", tm2)
+	})
+	res.Steps = e.Steps
+	if len(e.Panics) > 0 {
+		add("server: panic", "%v", e.Panics)
+	}
+	if e.Deadlock != "" {
+		add("server: deadlock", "%s", e.Deadlock)
+	}
+	if e.HarnessErr != "" && res.HarnessErr == "" {
+		res.HarnessErr = e.HarnessErr
+	}
+	if e.Failure != "" && res.HarnessErr == "" {
+		res.HarnessErr = e.Failure
+	}
+	return
+}
+
+// ---------------------------------------------------------------- enumeration at server level
+
+type srvScenario struct {
+	name    string
+	c       caseID
+	variant string
+}
+
+func serverScenarios() []srvScenario {
+	h := func(s ...sym) history { return history(s) }
+	t, b := func(k int) sym { return sym(k * 2) }, func(k int) sym { return sym(k*2 + 1) }
+	mixed := h(t(kAll), b(kR1), t(kR2), b(kS), t(kAllxS), b(kAll), t(kT), t(kAck), b(kR1xR2), t(kS))
+	var out []srvScenario
+	for _, k := range []int{1, 2, 4} {
+		for _, d := range []time.Duration{time.Second, 61 * time.Second, 119 * time.Second, 121 * time.Second} {
+			out = append(out, srvScenario{fmt.Sprintf("mixed-10/k=%d/%v", k, d), caseID{H: mixed, K: k, Delta: d}, vNormal})
+		}
+	}
+	short := h(t(kAll), b(kS), t(kR1))
+	for _, v := range []string{vUnknownPID, vUnknownOffset, vClientDisconnect, vTwice} {
+		for _, d := range []time.Duration{time.Second, 61 * time.Second} {
+			out = append(out, srvScenario{fmt.Sprintf("%s/%v", v, d), caseID{H: short, K: 1, Delta: d}, v})
+		}
+	}
+	out = append(out, srvScenario{"recover-twice/mixed", caseID{H: mixed, K: 4, Delta: time.Second}, vTwice})
+	bins := h(t(kAll), b(kAll), b(kR1), b(kR2), b(kAll), b(kT), b(kS))
+	for _, d := range []time.Duration{time.Second, 61 * time.Second, 119 * time.Second} {
+		out = append(out, srvScenario{fmt.Sprintf("two-sessions/binary/%v", d), caseID{H: bins, K: 1, Delta: d}, vBoth})
+		out = append(out, srvScenario{fmt.Sprintf("two-sessions/mixed-10/%v", d), caseID{H: mixed, K: 3, Delta: d}, vBoth})
+	}
+	return out
+}
+
+func runServerScenario(name string) ([]finding, string) {
+	for _, s := range serverScenarios() {
+		if s.name == name {
+			r := runServerCaseV(s.c, s.variant)
+			return r.Findings, r.HarnessErr
+		}
+	}
+	return nil, "no such server scenario: " + name
+}
+
+func serverWorker(tier string, shard, nshards int, deadline time.Time) *workerOut {
+	o := newOut("server")
+	if nshards < 1 {
+		nshards = 1
+	}
+	account := func(c caseID, r caseResult, replay map[string]any) {
+		o.Cases++
+		o.Execs++
+		o.Steps += r.Steps
+		o.Replayed += r.Replayed
+		if r.HarnessErr != "" {
+			o.harnessErr(r.HarnessErr)
+			return
+		}
+		if r.Nontrivial {
+			o.Nontrivial++
+		}
+		res := "refused"
+		if r.OK[0] {
+			res = "recovered"
+		}
+		o.ByClass[r.Class[0].String()+"/"+res]++
+		for _, f := range r.Findings {
+			o.found("server", c, f)
+			if a := o.Found[f.Key]; a.Msg == f.Msg && replay != nil {
+				a.Replay = replay
+			}
+		}
+	}
+	if shard == 0 {
+		nsc := 0
+		for _, s := range serverScenarios() {
+			r := runServerCaseV(s.c, s.variant)
+			account(s.c, r, map[string]any{"part": "server", "scenario": s.name})
+			o.ByLen["scripted"]++
+			nsc++
+		}
+		o.Extra["scripted_scenarios"] = nsc
+		o.Samples = append(o.Samples, map[string]any{"part": "server", "scenario": "mixed-10/k=2/1s", "history": serverScenarios()[3].c.H.String()})
+	}
+	// the model through the server: all histories of length <= maxL over the 16 symbols
+	maxL := 2
+	deltas := []time.Duration{time.Second, 61 * time.Second, 121 * time.Second}
+	spacings := allSpacings[:1]
+	if tier == "thorough" {
+		maxL = 3
+		deltas = allDeltas
+		spacings = allSpacings
+	}
+	full := alphabet(false)
+	seq := 0
+	for L := 0; L <= maxL; L++ {
+		total := pow(len(full), L)
+		for idx := 0; idx < total; idx++ {
+			seq++
+			if seq%nshards != shard {
+				continue
+			}
+			if time.Now().After(deadline) {
+				o.Cap = fmt.Sprintf("server level: wall-clock budget reached inside length %d (history %d of %d)", L, idx, total)
+				return o
+			}
+			h := make(history, L)
+			x := idx
+			for i := L - 1; i >= 0; i-- {
+				h[i] = full[x%len(full)]
+				x /= len(full)
+			}
+			for k := 0; k <= L; k++ {
+				for _, d := range deltas {
+					for _, spc := range spacings {
+						if k == 0 && spc != spacings[0] {
+							continue
+						}
+						c := caseID{H: h, K: k, Delta: d, Spacing: spc}
+						account(c, runServerCase(c), nil)
+						o.ByLen[fmt.Sprint(L)]++
+					}
+				}
+			}
+		}
+	}
+	return o
+}
+
+// mustNotClass names the reason of a must-not expectation in a key (stable, one per class).
+func mustNotClass(why string) string {
+	switch {
+	case strings.Contains(why, "session is older"):
+		return "session older than the window"
+	case strings.Contains(why, "no offset"):
+		return "client without an offset"
+	case strings.Contains(why, "expired more than"):
+		return "offset expired more than a clean-up period ago"
+	case strings.Contains(why, "pid is unknown"):
+		return "unknown pid"
+	case strings.Contains(why, "never logged"):
+		return "never-logged offset"
+	case strings.Contains(why, "DISCONNECT packet"):
+		return "session left with a DISCONNECT packet"
+	}
+	return "other"
+}
